@@ -2,6 +2,7 @@ import Lean.Data.Json
 import PteraModel.Model.PyRun
 import PteraModel.Model.PyLiteHost
 import PteraModel.Driver.Rewrite
+import PteraModel.Proofs.SimFun
 /-! line-protocol handler: run a PyLite function in the model interpreter with the PyLite host -/
 namespace Ptera.Driver.Exec
 open Lean Ptera.Py Ptera.Sem Ptera.Sem.PyLite
@@ -74,6 +75,7 @@ def handle (j : Json) : Json :=
         Json.arr (st.w.items.map fun p => Json.arr #[valJ p.1, valJ p.2]).toArray]),
       ("events", Json.arr (st.hs.events.map fun i =>
         Json.arr #[Json.str i.name, valJ i.value, valJ i.key, valJ i.ann, Json.bool i.ovr]).toArray),
-      ("inp_left", st.inp.length)]
+      ("inp_left", st.inp.length),
+      ("core", coreF f)]
 
 end Ptera.Driver.Exec
